@@ -180,21 +180,39 @@ Qed.
 Lemma NE_inp : NE inp_ok enc_inp.
 Proof. intros [k|u c] _; simpl; lia. Qed.
 
-Lemma RT_pname : RT pname_ok enc_pname rd_pname.
+Lemma RT_pstr : RT pstr_ok enc_pstr rd_pstr.
+Proof. intros s r H; apply rd_pstr_rt; exact H. Qed.
+
+(* the library's read_pascal_str reads back every name write_pascal_str accepts
+   (length byte unsigned: every length 0..255; ASCII only) *)
+Lemma lib_rd_pstr_rt : forall s r, pstr_ok s = true -> lib_rd_pstr (enc_pstr s ++ r) = Ok (s, r).
 Proof.
-  intros [n i] r H. unfold pname_ok in H. simpl in H. split_andb.
-  unfold rd_pname, enc_pname, pbind. simpl fst; simpl snd. rewrite <- app_assoc.
-  rewrite rd_pstr_rt by assumption. rewrite rd_i32_rt by assumption. reflexivity.
+  intros s r H. unfold pstr_ok in H. apply andb_true_iff in H. destruct H as [Hl Ha].
+  unfold lib_rd_pstr, enc_pstr, pbind, rd_u8. simpl.
+  unfold zlen. rewrite Nat2Z.id.
+  rewrite firstn_app, Nat.sub_diag, firstn_all. simpl. rewrite app_nil_r. rewrite Ha.
+  rewrite skipn_app, Nat.sub_diag, skipn_all. reflexivity.
 Qed.
+Lemma RT_lib_pstr : RT pstr_ok enc_pstr lib_rd_pstr.
+Proof. intros s r H; apply lib_rd_pstr_rt; exact H. Qed.
+
+Lemma RT_pname_w : forall ps, RT pstr_ok enc_pstr ps -> RT pname_ok enc_pname (rd_pname_w ps).
+Proof.
+  intros ps Hps [n i] r H. unfold pname_ok in H. simpl in H. split_andb.
+  unfold rd_pname_w, enc_pname, pbind. simpl fst; simpl snd. rewrite <- app_assoc.
+  rewrite Hps by assumption. rewrite rd_i32_rt by assumption. reflexivity.
+Qed.
+Lemma RT_pname : RT pname_ok enc_pname rd_pname.
+Proof. exact (RT_pname_w rd_pstr RT_pstr). Qed.
 Lemma NE_pname : NE pname_ok enc_pname.
 Proof. intros [n i] _. unfold enc_pname, enc_pstr. simpl. lia. Qed.
 
-Lemma RT_ugen : RT ugen_ok enc_ugen rd_ugen.
+Lemma RT_ugen_w : forall ps, RT pstr_ok enc_pstr ps -> RT ugen_ok enc_ugen (rd_ugen_w ps).
 Proof.
-  intros [cls rate ins outs sp] r H. unfold ugen_ok in H. simpl in H. split_andb.
-  unfold rd_ugen, enc_ugen, pbind. simpl u_cls; simpl u_rate; simpl u_ins; simpl u_outs; simpl u_special.
+  intros ps Hps [cls rate ins outs sp] r H. unfold ugen_ok in H. simpl in H. split_andb.
+  unfold rd_ugen_w, enc_ugen, pbind. simpl u_cls; simpl u_rate; simpl u_ins; simpl u_outs; simpl u_special.
   repeat rewrite <- app_assoc.
-  rewrite rd_pstr_rt by assumption. rewrite rd_i8_rt by assumption.
+  rewrite Hps by assumption. rewrite rd_i8_rt by assumption.
   rewrite (rd_i32_rt (zlen ins)) by assumption. rewrite (rd_i32_rt (zlen outs)) by assumption.
   rewrite rd_i16_rt by assumption.
   replace ((zlen ins <? 0) || (zlen outs <? 0)) with false.
@@ -203,6 +221,8 @@ Proof.
   rewrite (rep_rt i8_ok enc_i8 rd_i8 RT_i8 NE_i8) by (try assumption; lia).
   reflexivity.
 Qed.
+Lemma RT_ugen : RT ugen_ok enc_ugen rd_ugen.
+Proof. exact (RT_ugen_w rd_pstr RT_pstr). Qed.
 Lemma NE_ugen : NE ugen_ok enc_ugen.
 Proof. intros u _. unfold enc_ugen, enc_pstr. simpl. lia. Qed.
 
@@ -225,17 +245,36 @@ Proof. intros n v _. unfold enc_variant, enc_pstr. simpl. lia. Qed.
 Lemma rd_header_rt : forall r, rd_header (enc_header ++ r) = Ok (tt, r).
 Proof. intros r. reflexivity. Qed.
 
+Lemma rd_core_w_rt : forall ps, RT pstr_ok enc_pstr ps ->
+  forall name consts ctlw names units r,
+  pstr_ok name = true ->
+  i32_ok (zlen consts) = true -> forallb w32_ok consts = true ->
+  i32_ok (zlen ctlw) = true -> forallb w32_ok ctlw = true ->
+  i32_ok (zlen names) = true -> forallb pname_ok names = true ->
+  i32_ok (zlen units) = true -> forallb ugen_ok units = true ->
+  rd_core_w ps (enc_pstr name
+           ++ enc_i32 (zlen consts) ++ enc_list enc_w32 consts
+           ++ enc_i32 (zlen ctlw) ++ enc_list enc_w32 ctlw
+           ++ enc_i32 (zlen names) ++ enc_list enc_pname names
+           ++ enc_i32 (zlen units) ++ enc_list enc_ugen units ++ r)
+  = Ok ((name, consts, ctlw, names, units), r).
+Proof.
+  intros ps Hps. intros. unfold rd_core_w, pbind.
+  rewrite Hps by assumption.
+  rewrite (rd_counted_i32_rt w32_ok enc_w32 rd_w32 RT_w32 NE_w32) by assumption.
+  rewrite (rd_counted_i32_rt w32_ok enc_w32 rd_w32 RT_w32 NE_w32) by assumption.
+  rewrite (rd_counted_i32_rt pname_ok enc_pname (rd_pname_w ps) (RT_pname_w ps Hps) NE_pname) by assumption.
+  rewrite (rd_counted_i32_rt ugen_ok enc_ugen (rd_ugen_w ps) (RT_ugen_w ps Hps) NE_ugen) by assumption.
+  reflexivity.
+Qed.
+
 Lemma rd_body_rt : forall d r, def_ok d = true -> rd_body (enc_body d ++ r) = Ok (d, r).
 Proof.
   intros [name consts ctlw names units vars] r H. unfold def_ok in H. simpl in H. split_andb.
   unfold rd_body, rd_core, enc_body, pbind.
   simpl d_name; simpl d_consts; simpl d_ctl; simpl d_names; simpl d_units; simpl d_variants.
   repeat rewrite <- app_assoc.
-  rewrite rd_pstr_rt by assumption.
-  rewrite (rd_counted_i32_rt w32_ok enc_w32 rd_w32 RT_w32 NE_w32) by assumption.
-  rewrite (rd_counted_i32_rt w32_ok enc_w32 rd_w32 RT_w32 NE_w32) by assumption.
-  rewrite (rd_counted_i32_rt pname_ok enc_pname rd_pname RT_pname NE_pname) by assumption.
-  rewrite (rd_counted_i32_rt ugen_ok enc_ugen rd_ugen RT_ugen NE_ugen) by assumption.
+  rewrite (rd_core_w_rt rd_pstr RT_pstr) by assumption.
   unfold pret.
   rewrite (rd_counted_i16_rt (variant_ok (List.length ctlw)) enc_variant (rd_variant (zlen ctlw))
              (RT_variant (List.length ctlw)) (NE_variant (List.length ctlw))) by assumption.
